@@ -1,7 +1,8 @@
 SPECIFICATION Spec
 CONSTANTS
   Threads = {1, 2, 3}
-  Keys = {1, 2, 3}
+  Keys = {1, 2, 3, 4, 5}
+  ForeignKeys = {4, 5}
   KindOf <- MCKindOf
   ScriptChoices <- ScrClosedRead
   NItems = 2
